@@ -102,6 +102,17 @@ def programs(tier):
     same('global-in-repeat-in-macro', el('div', el('hide', m7, condition=py('False')),
                                          el('r', define=[['global', 'last', py('-1')]]), use('m7'), '[', I('last'), ']'),
          [['seq', 'len', 0]])
+    # a filler for a slot the used macro does not define is discarded: it must not reach a later use of another
+    # macro that happens to define a slot of that name (same scope; inside a repeat; inside the first macro)
+    same('unknown-fill-then-other-macro', el('div', el('hide', m1, m3, condition=py('False')), '|',
+                                             use('m1', el('li', 'LEAK ', I('who'), fill_slot='s')), '|', use('m3')),
+         [['who', 'int', 0]])
+    same('unknown-fill-in-repeat', el('div', el('hide', m1, m3, condition=py('False')), '|',
+                                      el('r', use('m1', el('li', 'LEAK', fill_slot='s')), use('m3'), indent=2,
+                                         repeat=['x', py('seq')])),
+         [['who', 'int', 0], ['seq', 'len', 1]])
+    same('filled-then-same-macro-unfilled', el('div', el('hide', m3, condition=py('False')), '|',
+                                               use('m3', el('li', 'F', fill_slot='s')), '|', use('m3')), [])
     # use with define/condition on the using element
     same('use-with-define-condition', el('div', m1, '|', use('m1', define=[['local', 'who', py('who + 5')]],
                                                             condition=py('cv')), '|', I('who')),
@@ -177,6 +188,11 @@ def generated(count, seed):
             site = [u]
         shown = rnd.random() < 0.4
         head = macro if shown else el('hide', macro, condition=py('False'))
+        if rnd.random() < 0.35:
+            # a second macro with a slot named like a filler the first one may not define, used afterwards unfilled
+            other = el('q', 'o[', el('b', 'od ', I('v'), define_slot=rnd.choice(['zz', 'x', 'y'])), ']', define_macro='h')
+            head = el('hide', macro, other, condition=py('False')) if not shown else el('both', macro, other)
+            site = site + ['~', use('h')]
         tree = el('div', head, '|', *site, '|', P('loc'), P('glob'), P('macroname'), P('item'))
         out.append(('gen-%d-%d' % (seed, n), None, tree, vars_))
     return out
@@ -217,7 +233,8 @@ def plan(tier, seed):
                program_key='label',
                mutants=[{'name': 'no_global_merge', 'cfg': by['locals-globals']},
                         {'name': 'extend_drops_appendleft', 'cfg': by['extend-2-caller-fills']},
-                        {'name': 'slot_default_when_filled', 'cfg': by['slot-x']}])
+                        {'name': 'slot_default_when_filled', 'cfg': by['slot-x']},
+                        {'name': 'fill_left_behind', 'cfg': by['unknown-fill-then-other-macro']}])
     return dict(
         level='translation_validation',
         functions=['chameleon.compiler:Compiler.visit_UseExternalMacro', 'chameleon.compiler:Compiler.visit_UseInternalMacro',
@@ -227,7 +244,7 @@ def plan(tier, seed):
                    'chameleon.utils:Scope.copy'],
         bounds=('%d (macro library, caller) pairs with their hand-inlined METAL-free equivalents: macros with 0-2 slots, '
                 'repeated slot names, every fill pattern (none/subset/all/unknown), use inside repeat and inside a '
-                'fill-slot, nested uses, extend-macro chains of length 2 and 3 with re-offered slots, macros of another '
+                'fill-slot, an unknown filler followed by another macro with a slot of that name, nested uses, extend-macro chains of length 2 and 3 with re-offered slots, macros of another '
                 'template, a whole template used as macro, local/global definitions inside macro bodies incl. global '
                 're-assignment across several uses, macroname; bindings (ints, flags, sequence lengths 0..3) decided by '
                 'the solver. Outside: depth > 3, fill-slot fillers of an extender that do not re-offer the slot while the '
